@@ -43,7 +43,9 @@ func (a jsonMultiset) hashCode(options []Option) [8]byte {
 		h = append(h, v.hashCode(options))
 	}
 	sort.Sort(h)
-	b := make([]byte, 0, len(a)*8)
+	// We start with constant bytes to distinguish a multiset from a string
+	// with the same bytes (e.g. an empty multiset from an empty string).
+	b := []byte{0x3C, 0xE9, 0x51, 0x0B, 0xD7, 0x26, 0xA8, 0x74} // random bytes
 	for _, c := range h {
 		b = append(b, c[:]...)
 	}
